@@ -22,6 +22,16 @@
 // with Commands.SetDuplexTimeout) times out or not, and effect attribution / response routing are judged
 // per command like the sequential cases (clauses EffId, NotParty, Misrouted).
 //
+// Round 3: histories that re-own mappings (wv migrated / migratedT: CloudControl.MigrateClientMappings leaves the former
+// listen client's per-client index naming a mapping it is no party of any more), a command id that another client's
+// command just carried (step "Prime" on that client's own connection, then cid "reused" on c1 - same type, or any type
+// after B's MappingGet; judged against the twin run with a fresh id), and failing storage reads of the named object's
+// main record while the command runs (flt read1 / read2 / readAll: srvkit CommandOptions.StorageFault for the handlers'
+// repositories, Server.SetCloudReadFault for the session layer's own read of a mapping). spec/CommandsExec.tla has a
+// duplex command step by step (replay lookup, identity, record read, party check, effect, response) and generates the
+// two-connection behaviours that combine those dimensions; its deviations (response cache keyed without the connection,
+// fail-open on a read fault) and Commands.tla's Devs are what Commands*_show_*.cfg make TLC reject.
+//
 // The command-type table is read from the REAL registry (CommandRegistry.ListHandlers) and, for
 // the types handleCommandPacket handles before the executor, by probing a server whose executor
 // has an empty registry (a type that does not come back as "no handler registered" never reached
@@ -130,6 +140,7 @@ type behT struct {
 	Wv     string                     `json:"wv"`
 	Conc   bool                       `json:"conc"`
 	Who    string                     `json:"who"`
+	Sid    bool                       `json:"sid"` // concurrent scenarios: both commands carry the same command id
 	Steps  []stepT                    `json:"steps"`
 	Policy map[string]json.RawMessage `json:"policy"`
 }
@@ -182,7 +193,9 @@ type run struct {
 	ncmd      int
 	lastCmdID string
 	faultMu   sync.Mutex
-	faultKey  string // suffix of the storage key whose next read fails once ("" = disarmed)
+	faultKey  string // suffix of the storage key whose reads fail ("" = disarmed)
+	faultSkip int    // reads of it that still succeed first
+	faultLeft int    // failures still to inject (< 0: every read fails until disarmed)
 	m1ID      string
 	mapID     map[string]string // m0, mz
 	k0Code    string
@@ -217,12 +230,15 @@ func newRun(reg, wv string, gate func(sub, base string), faults bool) (r *run, e
 		objn: map[string]string{}, oneway: map[packet.CommandType]bool{}, mapID: map[string]string{}}
 	defer func() {
 		if err != nil {
+			s.SetCloudReadFault(nil)
 			s.Close()
 		}
 	}()
 	opts := srvkit.CommandOptions{Library: reg == "library", DomainGate: gate}
 	if faults {
+		// the handlers' repositories read through a fault point; so does the session layer's own read of a mapping
 		opts.StorageFault = r.storageFault
+		s.SetCloudReadFault(r.storageFault)
 	}
 	if r.cm, err = s.EnableCommands(opts); err != nil {
 		return nil, err
@@ -316,6 +332,7 @@ func newRun(reg, wv string, gate func(sub, base string), faults bool) (r *run, e
 //	expired   m1, k1, d1 are past their expiry but still stored (nothing has swept them yet)
 //	revoked   m1 revoked (ConnectionCodeService.RevokeMapping), k1 revoked (RevokeConnectionCode)
 //	migrated  CloudControl.MigrateClientMappings(A, C): C is now the listen client of m1 and mz
+//	migratedT CloudControl.MigrateClientMappings(B, C): C is now the listen client of m1 and m0
 //	inactive  m1 status inactive (UpdatePortMappingStatus), d1 status inactive
 func (r *run) applyWorldVariant(wv, m1ID, k1ID, k1Code, d1ID string) error {
 	ctx := context.Background()
@@ -374,6 +391,10 @@ func (r *run) applyWorldVariant(wv, m1ID, k1ID, k1Code, d1ID string) error {
 		}
 		r.objn[m4.ID], r.objn[k4.ID], r.objn[k4.Code] = "m4", "k4", "k4"
 		return nil
+	case "migratedT":
+		// the same API for the client on the TARGET side: every mapping filed under B (m1, m0) gets listen client C;
+		// A keeps mz and B stays the target of m1 / m0, so every client still has a configuration to be pushed
+		return r.s.Cloud.MigrateClientMappings(r.ids["B"], r.ids["C"])
 	case "inactive":
 		if err := r.s.Cloud.UpdatePortMappingStatus(m1ID, models.MappingStatusInactive); err != nil {
 			return err
@@ -705,8 +726,9 @@ func (r *run) body(st stepT, actor, bf string) string {
 	return j(map[string]any{})
 }
 
-// armFault arms (or, with "", disarms) the one-shot read fault for the named object's main record.
-func (r *run) armFault(objName string) {
+// armFault arms (or, with "", disarms) read faults for the named object's main record:
+// mode "read1" = the next read fails once, "read2" = the read after the next fails once, "readAll" = every read fails.
+func (r *run) armFault(objName, mode string) {
 	id := ""
 	switch objName {
 	case "":
@@ -730,7 +752,13 @@ func (r *run) armFault(objName string) {
 		}
 	}
 	r.faultMu.Lock()
-	r.faultKey = id
+	r.faultKey, r.faultSkip, r.faultLeft = id, 0, 1
+	switch mode {
+	case "read2":
+		r.faultSkip = 1
+	case "readAll":
+		r.faultLeft = -1
+	}
 	r.faultMu.Unlock()
 }
 
@@ -739,11 +767,20 @@ var errInjected = fmt.Errorf("verif: injected transient storage read failure")
 func (r *run) storageFault(key string) error {
 	r.faultMu.Lock()
 	defer r.faultMu.Unlock()
-	if r.faultKey != "" && strings.HasSuffix(key, r.faultKey) {
-		r.faultKey = ""
-		return errInjected
+	if r.faultKey == "" || !strings.HasSuffix(key, r.faultKey) {
+		return nil
 	}
-	return nil
+	if r.faultSkip > 0 {
+		r.faultSkip--
+		return nil
+	}
+	if r.faultLeft == 0 {
+		return nil
+	}
+	if r.faultLeft > 0 {
+		r.faultLeft--
+	}
+	return errInjected
 }
 
 // liveNew lists the real ids of objects of a kind that were not created at set-up (m2 / d2 of the model).
@@ -790,7 +827,7 @@ type cmdOpts struct {
 	cmdID      string       // "" = a fresh one
 	snd        *srvkit.Conn // nil = the actor connection c1
 	sndName    string
-	fault      bool // one transient read fault of the named object's main record
+	flt        string // "" / "none", or read faults of the named object's main record during the command (see armFault)
 }
 
 func (r *run) identityOf(c *srvkit.Conn) string {
@@ -851,9 +888,14 @@ func (r *run) cmd(st stepT, o cmdOpts) (*cmdResult, string) {
 		r.cm.Drain(c)
 	}
 	r.cm.Drain(r.c1)
-	if o.fault {
-		r.armFault(st.Obj)
-		defer r.armFault("")
+	faulty := o.flt != "" && o.flt != "none"
+	if faulty {
+		fobj := st.Obj
+		if strings.TrimSuffix(st.Ty, ":resp") == "MappingList" {
+			fobj = "m1" // the argument of a list command is a direction; the unreadable record is m1's
+		}
+		r.armFault(fobj, o.flt)
+		defer r.armFault("", "")
 	}
 
 	type sendRes struct {
@@ -929,7 +971,7 @@ wait:
 		}
 	}
 	tick.Stop()
-	r.armFault("") // a fault the command did not consume must not hit the driver's own snapshot reads
+	r.armFault("", "") // a fault the command did not consume must not hit the driver's own snapshot reads
 	if res.err != nil {
 		return nil, res.err.Error()
 	}
@@ -995,8 +1037,8 @@ wait:
 	if o.cmdID != "" && o.snd == nil {
 		cid = "reused"
 	}
-	if o.fault {
-		flt = "read1"
+	if faulty {
+		flt = o.flt
 	}
 	ev := fw.Event{"ev": "Cmd", "c": sndName, "ty": st.Ty, "pt": st.Pt, "claims": claims, "bf": bf, "cid": cid, "flt": flt, "obj": st.Obj, "hc": st.Hc, "actor": actor,
 		"out": out, "objp": objp, "objo": objo, "objt": objt, "ret": ret, "diff": diff, "deliv": deliv, "sum": sum}
@@ -1096,13 +1138,14 @@ func (r *run) hs(st stepT) (fw.Event, string) {
 func replay(beh *behT, twin bool, logAll bool) (evs []fw.Event, sums []string, bind []bool, note string, err error) {
 	faults := false
 	for _, st := range beh.Steps {
-		faults = faults || st.Flt == "read1"
+		faults = faults || (st.Flt != "" && st.Flt != "none")
 	}
 	r, err := newRun(beh.Reg, beh.Wv, nil, faults)
 	if err != nil {
 		return nil, nil, nil, "", err
 	}
 	defer r.s.Close()
+	defer r.s.SetCloudReadFault(nil)
 	for _, n := range clientNames {
 		if logAll {
 			evs = append(evs, fw.Event{"ev": "Hs", "c": "v" + n, "k": "Login", "id": n, "type": "control", "valid": true, "ok": true, "srv": n})
@@ -1136,7 +1179,7 @@ func replay(beh *behT, twin bool, logAll bool) (evs []fw.Event, sums []string, b
 			if twin { // the twin run: same steps, no identity fields anywhere in the packets
 				claims, bf = "absent", "absent"
 			}
-			o := cmdOpts{claims: claims, bf: bf, fault: st.Flt == "read1"}
+			o := cmdOpts{claims: claims, bf: bf, flt: st.Flt}
 			if st.Cid == "reused" && !twin {
 				o.cmdID = primeID // the command id another client's command of this type just carried
 			}
@@ -1318,6 +1361,7 @@ type concProc struct {
 	done    chan struct{} // Send returned
 	herr    error
 	parked  bool
+	sent    bool
 }
 
 func driveConc(env *fw.Env, beh *behT) *fw.Trace {
@@ -1365,11 +1409,44 @@ func driveConc(env *fw.Env, beh *behT) *fw.Trace {
 	default:
 		return &fw.Trace{Status: fw.DriverError, Note: "unknown scenario " + beh.Who}
 	}
+	if beh.Sid {
+		procs["pb"].cmdID = procs["pa"].cmdID // the id is chosen by the client: nothing keeps two clients from choosing the same
+	}
 	mu.Lock()
 	for _, p := range procs {
 		gates[p.sub] = p
 	}
 	mu.Unlock()
+	// whose response is this packet? By command id; when both commands carry the same id, by the subdomain the
+	// body names (both response types state the full domain), else the command of the connection it arrived on.
+	owner := func(x *packet.TransferPacket, cn string) *concProc {
+		if x.CommandPacket == nil || x.PacketType&0x3F != packet.CommandResp {
+			return nil
+		}
+		var cands []*concProc
+		for _, n := range []string{"pa", "pb"} {
+			if procs[n].cmdID == x.CommandPacket.CommandId {
+				cands = append(cands, procs[n])
+			}
+		}
+		switch len(cands) {
+		case 0:
+			return nil
+		case 1:
+			return cands[0]
+		}
+		for _, c := range cands {
+			if strings.Contains(x.CommandPacket.CommandBody, c.sub) {
+				return c
+			}
+		}
+		for _, c := range cands {
+			if c.cname == cn {
+				return c
+			}
+		}
+		return cands[0]
+	}
 	conns := map[string]*srvkit.Conn{"vA": r.v["A"], "vB": r.v["B"], "vC": r.v["C"], "c1": r.c1}
 	clientOf := map[string]string{"vA": "A", "vB": "B", "vC": "C", "c1": "none"}
 	got := map[string][]*packet.TransferPacket{}
@@ -1436,15 +1513,26 @@ func driveConc(env *fw.Env, beh *behT) *fw.Trace {
 		}
 	}
 	sawResponse := func(p *concProc) bool {
-		for _, ps := range got {
+		for cn, ps := range got {
 			for _, x := range ps {
-				if x.CommandPacket != nil && x.PacketType&0x3F == packet.CommandResp && x.CommandPacket.CommandId == p.cmdID {
+				if owner(x, cn) == p {
 					return true
 				}
 			}
 		}
 		return false
 	}
+	diverged := ""
+	releaseAll := func() {
+		for _, p := range procs {
+			select {
+			case <-p.release:
+			default:
+				close(p.release)
+			}
+		}
+	}
+steps:
 	for i, st := range beh.Steps {
 		p := procs[st.P]
 		if p == nil {
@@ -1464,8 +1552,13 @@ func driveConc(env *fw.Env, beh *behT) *fw.Trace {
 				p.herr = r.s.SM.HandlePacket(&coretypes.StreamPacket{ConnectionID: p.conn.ID, Packet: pkt, Timestamp: time.Now()})
 				close(p.done)
 			})
+			p.sent = true
 			if !waitFor(p.reached, 5*time.Second) {
-				return &fw.Trace{Status: fw.Inconclusive, Note: fmt.Sprintf("step %d: the handler of %s did not reach the storage call within 5 s", i+1, st.P)}
+				// the code left the model's schedule (the handler of a dispatched command never got to its storage call -
+				// or the machine is too slow): let everything run freely; what happened is a real execution and is judged
+				diverged = fmt.Sprintf("step %d: the handler of %s did not reach the storage call within 5 s; the rest ran unscheduled", i+1, st.P)
+				releaseAll()
+				break steps
 			}
 			p.parked = true
 		case "T":
@@ -1477,7 +1570,11 @@ func driveConc(env *fw.Env, beh *behT) *fw.Trace {
 				return &fw.Trace{Status: fw.Inconclusive, Note: fmt.Sprintf("step %d: Execute of %s did not time out in time", i+1, st.P)}
 			}
 		case "R":
-			close(p.release)
+			select {
+			case <-p.release:
+			default:
+				close(p.release)
+			}
 			deadline := time.Now().Add(5 * time.Second)
 			for !sawResponse(p) {
 				if time.Now().After(deadline) {
@@ -1491,8 +1588,14 @@ func driveConc(env *fw.Env, beh *behT) *fw.Trace {
 		}
 	}
 	for _, p := range procs {
-		if !waitFor(p.done, 45*time.Second) {
+		if p.sent && !waitFor(p.done, 45*time.Second) {
 			return &fw.Trace{Status: fw.Inconclusive, Note: "a command did not return"}
+		}
+	}
+	if diverged != "" {
+		// late responses of handlers that outlived their Execute
+		for end := time.Now().Add(300 * time.Millisecond); time.Now().Before(end); time.Sleep(2 * time.Millisecond) {
+			collect()
 		}
 	}
 	time.Sleep(300 * time.Microsecond)
@@ -1505,6 +1608,9 @@ func driveConc(env *fw.Env, beh *behT) *fw.Trace {
 	}
 	for _, name := range []string{"pa", "pb"} {
 		p := procs[name]
+		if !p.sent {
+			continue
+		}
 		actor := clientOf[p.cname]
 		// what this command changed: the domain carrying its subdomain; anything else is attributed to both
 		mine := []map[string]any{}
@@ -1527,7 +1633,8 @@ func driveConc(env *fw.Env, beh *behT) *fw.Trace {
 		deliv := []map[string]any{}
 		for cn, ps := range got {
 			for _, x := range ps {
-				isResp := x.CommandPacket != nil && x.PacketType&0x3F == packet.CommandResp && x.CommandPacket.CommandId == p.cmdID
+				own := owner(x, cn)
+				isResp := own == p
 				if cn == p.cname {
 					if isResp {
 						var b struct {
@@ -1540,12 +1647,7 @@ func driveConc(env *fw.Env, beh *behT) *fw.Trace {
 					continue
 				}
 				// on another connection: this command's response, or a packet that is nobody's response
-				foreign := false
-				for _, q := range procs {
-					if q != p && x.CommandPacket != nil && x.CommandPacket.CommandId == q.cmdID {
-						foreign = true
-					}
-				}
+				foreign := own != nil && own != p
 				if isResp || (!foreign && !(x.CommandPacket != nil && x.PacketType&0x3F == packet.CommandResp)) {
 					ty := fmt.Sprintf("packet-%d", byte(x.PacketType))
 					if x.CommandPacket != nil {
@@ -1574,10 +1676,13 @@ func driveConc(env *fw.Env, beh *behT) *fw.Trace {
 		}
 		sort.Slice(deliv, func(i, j int) bool { return fmt.Sprint(deliv[i]) < fmt.Sprint(deliv[j]) })
 		sort.Slice(ret, func(i, j int) bool { return fmt.Sprint(ret[i]["o"]) < fmt.Sprint(ret[j]["o"]) })
-		ev := fw.Event{"ev": "Cmd", "c": p.cname, "ty": p.ty, "pt": "cmd", "claims": "absent", "bf": "absent", "obj": "none", "hc": "concurrent:" + beh.Who,
+		ev := fw.Event{"ev": "Cmd", "c": p.cname, "ty": p.ty, "pt": "cmd", "claims": "absent", "bf": "absent", "obj": "none", "hc": "concurrent:" + beh.Who + map[bool]string{true: ":sameid", false: ""}[beh.Sid],
 			"actor": actor, "out": out, "objp": []string{}, "objo": "none", "objt": "none", "ret": ret, "diff": mine, "deliv": deliv,
 			"sum": summary(out, ret, mine, deliv), "reg": "server", "wv": "base", "conc": true}
 		evs = append(evs, ev)
+	}
+	if diverged != "" {
+		return &fw.Trace{Status: fw.Diverged, Note: diverged, Events: evs}
 	}
 	return &fw.Trace{Status: fw.Realised, Events: evs}
 }
@@ -1841,6 +1946,30 @@ func selfTest(env *fw.Env, acc []*fw.Trace) []*fw.Trace {
 					return evs
 				})
 			}
+			if e["cid"] == "reused" && e["out"] == "fail" && e["ty"] == "MappingGet" && e["obj"] == "m1" && !contains(strs(e["objp"]), actor) {
+				// 12. a command that repeats the command id of B's answered MappingGet is answered with B's response
+				// (on an unauthenticated connection, or a stranger's)
+				add("replayed-"+map[bool]string{true: "unauth", false: "stranger"}[actor == "none"], t, func(evs []fw.Event) []fw.Event {
+					evs[i]["out"] = "ok"
+					evs[i]["ret"] = []any{map[string]any{"kind": "mapping", "o": "m1", "ps": evs[i]["objp"], "own": evs[i]["objo"]}}
+					return evs
+				})
+			}
+			if e["flt"] != nil && e["flt"] != "none" && actor != "none" && e["out"] == "fail" && e["ty"] == "MappingDelete" && e["obj"] == "m1" && !contains(strs(e["objp"]), actor) {
+				// 13. the storage read for the party check failed and the stranger's delete went through
+				add("fault-open", t, func(evs []fw.Event) []fw.Event {
+					evs[i]["out"] = "ok"
+					evs[i]["diff"] = []any{map[string]any{"op": "del", "kind": "mapping", "o": "m1", "ps": evs[i]["objp"], "own": evs[i]["objo"]}}
+					return evs
+				})
+			}
+			if (e["wv"] == "migrated" || e["wv"] == "migratedT") && actor == "A" && e["out"] == "ok" && e["ty"] == "MappingList" {
+				// 14. the former listen client still lists the mapping that was migrated away from it
+				add("stale-listed", t, func(evs []fw.Event) []fw.Event {
+					evs[i]["ret"] = append(evs[i]["ret"].([]any), map[string]any{"kind": "mapping", "o": "m1", "ps": []string{"B", "C"}, "own": "C"})
+					return evs
+				})
+			}
 			if e["claims"] != "absent" && e["ref"] != nil {
 				// 7. the identity fields changed the outcome
 				add("claims-matter", t, func(evs []fw.Event) []fw.Event {
@@ -1850,10 +1979,10 @@ func selfTest(env *fw.Env, acc []*fw.Trace) []*fw.Trace {
 			}
 			if actor != "none" && len(strs(e["objp"])) == 2 && e["ty"] == "SOCKS5TunnelRequestCmd" && len(fw.MustJSON(e["deliv"])) > 2 {
 				// 8. a tunnel request relayed although the caller is the mapping's target, not its listen client
-				add("not-listen", t, func(evs []fw.Event) []fw.Event { evs[i]["objo"] = "C"; return evs })
+				add("not-listen", t, func(evs []fw.Event) []fw.Event { evs[i]["objo"] = victimOf(actor); return evs })
 			}
 		}
-		if len(out) >= 40 {
+		if len(out) >= 60 {
 			break
 		}
 	}
@@ -1881,13 +2010,24 @@ func genFixes() string {
 
 func job(name, sets, fixes string, cmds int, resp, emit bool) fw.TLCJob {
 	b := map[bool]string{true: "TRUE", false: "FALSE"}
-	return fw.TLCJob{Name: name, Module: "Commands", Cfg: "Commands_mc.cfg", Workers: 4,
-		Consts: map[string]string{"WVS": `{"base", "expired", "revoked", "inactive", "migrated"}`, "SETS": sets, "FIXES": fixes, "CMDS": strconv.Itoa(cmds), "RESP": b[resp], "EMIT": b[emit]}}
+	j := fw.TLCJob{Name: name, Module: "Commands", Cfg: "Commands_mc.cfg", Workers: 4,
+		Consts: map[string]string{"WVS": `{"base", "expired", "revoked", "inactive", "migrated", "migratedT"}`, "SETS": sets, "FIXES": fixes, "DEVS": "{}", "CMDS": strconv.Itoa(cmds), "RESP": b[resp], "EMIT": b[emit]}}
+	if cmds >= 4 && !emit { // the exhaustive thorough-tier runs (about 13 million transitions): minutes, more on a loaded machine
+		j.Workers, j.Timeout = 6, 25*time.Minute
+	}
+	return j
 }
 
 func concJob(name string, emit bool) fw.TLCJob {
 	return fw.TLCJob{Name: name, Module: "CommandsConc", Cfg: "CommandsConc.cfg", Workers: 2,
 		Consts: map[string]string{"POOLED": "FALSE", "EMIT": map[bool]string{true: "TRUE", false: "FALSE"}[emit]}}
+}
+
+// execJob: spec/CommandsExec.tla - one duplex command step by step. replay "none" is the code as it is,
+// "conn+type+id" a per-connection response cache (accepted by the property: model-checked only).
+func execJob(name, replay string, emit bool) fw.TLCJob {
+	return fw.TLCJob{Name: name, Module: "CommandsExec", Cfg: "CommandsExec.cfg", Workers: 2,
+		Consts: map[string]string{"REPLAY": strconv.Quote(replay), "EMIT": map[bool]string{true: "TRUE", false: "FALSE"}[emit]}}
 }
 
 const (
@@ -1903,10 +2043,13 @@ func main() {
 			if env.Tier == "thorough" {
 				return []fw.TLCJob{
 					job("mc: server+special rows, 4 commands, CommandResp too, patched tree", serverSets, allFixes, 4, true, false),
-					job("mc: server+special rows, 4 commands, CommandResp too, unpatched tree (deviations masked)", serverSets, "{}", 4, true, false),
+					// (the tree before patches/C11-*: about twice the states of the patched one per command - 3 commands)
+				job("mc: server+special rows, 3 commands, CommandResp too, unpatched tree (deviations masked)", serverSets, "{}", 3, true, false),
 					job("mc: library rows, 4 commands, CommandResp too, patched tree", librarySets, allFixes, 4, true, false),
 					job("mc: library rows, 4 commands, CommandResp too, unpatched tree (deviations masked)", librarySets, "{}", 4, true, false),
 					concJob("mc: two duplex commands in flight, per-call contexts", false),
+					execJob("mc: a duplex command step by step (replay lookup / identity / read / check / effect), nothing remembered", "none", false),
+					execJob("mc: a duplex command step by step, responses remembered per connection", "conn+type+id", false),
 				}
 			}
 			unp := job("mc: server+special rows, 2 commands, base world, unpatched tree (deviations masked)", serverSets, "{}", 2, false, false)
@@ -1918,6 +2061,8 @@ func main() {
 				unp,
 				job("mc: library rows, 3 commands, patched tree", librarySets, allFixes, 3, false, false),
 				concJob("mc: two duplex commands in flight, per-call contexts", false),
+				execJob("mc: a duplex command step by step (replay lookup / identity / read / check / effect), nothing remembered", "none", false),
+				execJob("mc: a duplex command step by step, responses remembered per connection", "conn+type+id", false),
 			}
 		},
 		GenJobs: func(env *fw.Env) []fw.TLCJob {
@@ -1933,7 +2078,8 @@ func main() {
 			}
 			seq := job("gen: random command sequences", serverSets, genFixes(), 4, false, true)
 			seq.Simulate, seq.Depth, seq.Seed, seq.Workers = num, depth, env.Seed, 1
-			jobs = append(jobs, seq, concJob("gen: interleavings of two duplex commands (dispatch / timeout / storage return)", true))
+			jobs = append(jobs, seq, concJob("gen: interleavings of two duplex commands (dispatch / timeout / storage return)", true),
+				execJob("gen: two commands on two connections step by step (command id reused or not, across types, failing reads)", "none", true))
 			if thorough {
 				lib := job("gen: random command sequences, library rows", librarySets, genFixes(), 4, false, true)
 				lib.Simulate, lib.Depth, lib.Seed, lib.Workers = "num=500", depth, env.Seed+1, 1
@@ -2047,13 +2193,14 @@ func main() {
 			}
 			return false
 		},
-		Rule: "one behaviour per (authentication state of the actor connection, policy row, packet type, claimed identity fields, named object) transition of spec/Commands.tla " +
-			"plus random command sequences, each replayed on a fresh real server assembly (and on a twin without identity fields); non-trivial = contains a command",
+		Rule: "one behaviour per (authentication state of the actor connection, policy row, packet type, claimed identity fields / reused command id / failing storage read, named object, world history) transition of spec/Commands.tla " +
+			"plus random command sequences, every interleaving of spec/CommandsConc.tla and every two-connection behaviour of spec/CommandsExec.tla, each replayed on a fresh real server assembly (and on a twin without identity fields); non-trivial = contains a command",
 		Assumptions: []string{
 			"the in-process server registers the same command handlers as Server.setupConnectionCodeCommands (srvkit.EnableCommands mirrors it and checks the source for drift); " +
 				"the 'library' configuration additionally wires internal/command's own server-side handlers, which the server does not register today",
 			"the policy table (spec/CommandsPolicy.tla) is our reading of the statement: server-wide read-only commands, replies matched by request id, stubs and the connection's own disconnect carry no demand",
 			"who is a party to an object is read from the real store (ListenClientID / TargetClientID / owner fields)",
+			"storage faults are injected in front of the reads (Get) of the named object's main record made by the command handlers' repositories and by the session layer's cloud-control adapter; other storage operations do not fail",
 			"forwarded DNS requests are answered by the fake client at once; a command that does not return within 8 s makes the behaviour inconclusive",
 		},
 		TrustedBase: []string{"TLC", "spec/CommandsTrace.tla + CommandsPolicy.tla as the reading of the C11 statement", "srvkit fake transport and command wiring", "the driver's semantic store snapshot and delivery observation"},
